@@ -11,9 +11,10 @@ Op lines (addresses `A`…`E`, `GOV`, `@<denom>`; coins `12mka`; lists `a|b`, `-
   addaccess A mka B:mint+burn | delaccess A mka B
   govinc GOV 10mka -|B | govdec GOV 10mka | govstatus GOV mka active
   govwithdraw GOV mka B 10mka | govsetadmin GOV mka B:mint | govrmadmin GOV mka B
-  params GOV max=1000 eg=1
+  params GOV max=1000 mts=0 eg=1     (max=nil: the message leaves `max_supply` out — a nil Int, stored
+                                       as 0; mts = the deprecated `max_total_supply`, 0 when absent)
   send A B 10mka | beginblock | fmint A 10mka | govburn A 10mka
-Output of every op: `<result> ; P max=.. eg=.. ; M <denom> st=.. sup=.. fix=.. typ=.. gov=.. ft=..
+Output of every op: `<result> ; P max=.. mts=.. eg=.. ; M <denom> st=.. sup=.. fix=.. typ=.. gov=.. ft=..
 mgr=.. acc=.. ; … ; S mka=.. mkb=.. oth=.. ; A <marker denoms whose address holds a plain account|-> ;
 B A=.. … @mkb=.. %=..` (the whole observable state).
 -/
@@ -49,7 +50,7 @@ def dump (s : State) : String :=
   let bals := " ".intercalate (acctUniverse.map fun a => s!"{a}={showCoins (s.bank.balances a)}")
   let plain := ["mka", "mkb"].filter fun d => s.plain.contains d
   let pl := if plain.isEmpty then "-" else ",".intercalate plain
-  let secs := [s!"P max={s.maxSupply} eg={boolStr s.enableGov}"] ++ ms ++ [s!"S {sup}", s!"A {pl}", s!"B {bals} %=-"]
+  let secs := [s!"P max={s.maxSupply} mts={s.maxTotalSupply} eg={boolStr s.enableGov}"] ++ ms ++ [s!"S {sup}", s!"A {pl}", s!"B {bals} %=-"]
   " ; ".intercalate secs
 
 /-! ### parsing op lines -/
@@ -101,9 +102,12 @@ def parseOp? (ws : List String) : Option Op :=
   | ["govsetadmin", au, d, g] => (parseGrant? g).map fun (a, ps) => .govsetadmin au d a ps
   | ["govrmadmin", au, d, a] => some (.govrmadmin au d a)
   | "params" :: au :: rest => do
-    let mx ← (kv rest "max") >>= parseInt?
+    let mx ← (kv rest "max") >>= fun v => if v = "nil" then some 0 else parseInt? v
+    let mts ← match kv rest "mts" with
+      | some v => (parseInt? v).filter fun n => decide (0 ≤ n ∧ n < 18446744073709551616)
+      | none => some 0
     let eg ← (kv rest "eg") >>= parseBool?
-    pure (.params au mx eg)
+    pure (.params au mx mts eg)
   | ["send", f, t, coin] => (parseCoin? coin).map fun (d, n) => .send f t d n
   | ["beginblock"] => some .beginblock
   | ["fmint", t, coin] => (parseCoin? coin).map fun (d, n) => .fmint t d n
